@@ -180,29 +180,25 @@ def formulas(rep, prog):
             got = obj.f.get(fld) if isinstance(obj, Rec) else None
             sp = spec(ev, src, env, m)
             rep.ob('R06.formulas', f'{cname}.{fld}', compare_terms(got, sp) if got is not None else None, f'{fld} = {got!r:.160}', prog.site(m, cls), lhs=got, rhs=sp)
-    # circuit-level wrappers
-    ci = prog.mod('Circuit.impedance')
-    for fn, inner in (('open_circuit_dc_resistance', 'open_circuit_impedance'), ('element_dc_resistance', 'element_impedance')):
-        g = ci.defs.get(fn)
-        if not isinstance(g, ast.FunctionDef):
-            rep.ob('R06.formulas', fn, None, 'function not found'); continue
-        from ..prog import returned_expr
-        v = returned_expr(g)
-        ok = (isinstance(v, ast.Attribute) and v.attr == 'real' and isinstance(v.value, ast.Subscript) and isinstance(v.value.slice, ast.Constant) and v.value.slice.value == 0
-              and isinstance(v.value.value, ast.Call) and ast.unparse(v.value.value.func) == inner and any(k.arg == 'w' and 'array([0])' in ast.unparse(k.value) for k in v.value.value.keywords))
-        rep.ob('R06.formulas', fn, ok, f'= {ast.unparse(v) if v is not None else None}', prog.site(ci, g))
-    for fn, inner in (('open_circuit_impedance', 'open_circuit_impedance'), ('element_impedance', 'element_impedance')):
-        g = ci.defs.get(fn)
-        if not isinstance(g, ast.FunctionDef):
-            rep.ob('R06.formulas', 'sweep:' + fn, None, 'function not found'); continue
-        src = ast.unparse(g)
-        comp = [n for n in ast.walk(g) if isinstance(n, ast.ListComp)]
-        ok = False
-        if comp:
-            c = comp[0]; tv = c.generators[0].target.id if isinstance(c.generators[0].target, ast.Name) else None
-            ok = (ast.unparse(c.generators[0].iter) == 'w' and isinstance(c.elt, ast.Call) and ast.unparse(c.elt.func).endswith('.' + inner)
-                  and isinstance(c.elt.args[0], ast.Call) and ast.unparse(c.elt.args[0].func) == 'transform_circuit' and len(c.elt.args[0].args) >= 2 and ast.unparse(c.elt.args[0].args[1]) == tv)
-        rep.ob('R06.formulas', 'sweep:' + fn, ok, 'one network per swept frequency, analysed at that frequency', prog.site(ci, g))
+    # circuit-level wrappers: one network per swept frequency, analysed at that frequency; the DC resistance is the real part at w = 0
+    CI = 'Circuit.impedance'
+    opq = {(NA, 'open_circuit_impedance'), (NA, 'element_impedance'), ('Circuit.circuit', 'transform_circuit')}
+    refs = {'net_oci': ev.ref_of(prog.resolve(prog.mod(NA), 'open_circuit_impedance')), 'net_ei': ev.ref_of(prog.resolve(prog.mod(NA), 'element_impedance')),
+            'transform_circuit': ev.ref_of(prog.resolve(prog.mod('Circuit.circuit'), 'transform_circuit'))}
+    cases = [('sweep:open_circuit_impedance', 'open_circuit_impedance', ['circuit', 'n1', 'n2', 'w'], "[net_oci(transform_circuit(circuit, w0), n1, n2) for w0 in w]"),
+             ('sweep:element_impedance', 'element_impedance', ['circuit', 'element', 'w'], "[net_ei(transform_circuit(circuit, w0), element) for w0 in w]"),
+             ('open_circuit_dc_resistance', 'open_circuit_dc_resistance', ['circuit', 'n1', 'n2'], "real(net_oci(transform_circuit(circuit, 0), n1, n2))"),
+             ('element_dc_resistance', 'element_dc_resistance', ['circuit', 'element'], "real(net_ei(transform_circuit(circuit, 0), element))")]
+    for key, fn, params, src in cases:
+        try:
+            g = prog.func(CI, fn)
+        except KeyError:
+            rep.ob('R06.formulas', key, None, 'function not found'); continue
+        e2 = new_ev(prog); e2.opaque_fns |= opq
+        t = call(e2, g, [A(p) for p in params])
+        env2 = {p: A(p) for p in params}; env2.update(refs)
+        sp = spec(e2, src, env2, g.mod)
+        rep.ob('R06.formulas', key, compare_terms(t, sp), f'= {t!r:.200}', g.site, lhs=t, rhs=sp)
 
 
 def imports(rep, prog):
